@@ -592,6 +592,56 @@ def make_view_class(cls):
     return v
 
 
+# ------------------------------------------------------------------------------------ integer-indexed arrays
+class StopHere(BaseException):
+    """the function under verification left the modelled fragment (e.g. entered pandas): the harness stops there"""
+
+
+def _ix(i):
+    t = lift(i)
+    return z3.ToInt(t)
+
+
+class SymArr:
+    """numpy float array of symbolic length: z3 Array(Int, Real) + bounds obligations"""
+
+    def __init__(self, arr, n):
+        self.arr, self.n = arr, n
+
+    def _bounds(self, i):
+        ctx().ob('array-index-within-bounds', z3.And(_ix(i) >= 0, z3.ToReal(_ix(i)) < lift(self.n)), kind='A')
+
+    def __getitem__(self, i):
+        self._bounds(i)
+        return SymNum(z3.Select(self.arr, _ix(i)))
+
+    def __setitem__(self, i, v):
+        self._bounds(i)
+        self.arr = z3.Store(self.arr, _ix(i), lift(v))
+
+    def __vc_len__(self):
+        return self.n
+
+
+class SymIndex:
+    def __init__(self, n):
+        self.n = n
+
+    def __vc_len__(self):
+        return self.n
+
+
+class SymRange:
+    def __init__(self, lo, hi):
+        self.lo, self.hi = lo, hi
+
+    def __vc_loop__(self):
+        return self
+
+    def __iter__(self):
+        raise Unmodelled('CPython iteration over a symbolic range')
+
+
 # -------------------------------------------------------------------------------------------- lists
 class SymList:
     """A list that the code only appends to / iterates: symbolic prefix (opaque) + appended items."""
